@@ -9,7 +9,7 @@ from .. import boolnorm as bn
 from ..cfg import CFG, cond_facts, facts_at
 from ..core import Ctx, RuleReport, rule
 from ..src import AnalysisError, FuncInfo, norm, try_fold, walk_local
-from ..types import has
+from ..tyeng import has
 from .lexical import single_def
 
 G = 'penman.graph'
